@@ -1,6 +1,11 @@
 package hnsw
 
-import "github.com/sanonone/kektordb/pkg/core/distance"
+import (
+	"github.com/RoaringBitmap/roaring"
+	"github.com/sanonone/kektordb/pkg/core/distance"
+	"github.com/sanonone/kektordb/pkg/core/types"
+	rt "github.com/sanonone/kektordb/pkg/zzverifrt"
+)
 
 // ZZNewRAM builds the real index on its RAM-only vector path (arenaDir == ""): the mmap arena needs
 // files and unsafe casts that are outside the executor (slot allocation is covered by C18).
@@ -16,3 +21,15 @@ func ZZCloseNoop(h *Index) error {
 
 // ZZRandomLevelZero pins new nodes to level 0 (level choice is random in the real code).
 func ZZRandomLevelZero(h *Index) int { return 0 }
+
+// ZZLastDistance is the symbolic distance the search stub reported last.
+var ZZLastDistance float64
+
+// ZZSearchOneSymbolic replaces Index.SearchWithScores: the nearest neighbour is node 1 at an arbitrary
+// non-negative distance (the proxy/engine code that converts and compares it is real).
+func ZZSearchOneSymbolic(h *Index, query []float32, k int, allowList *roaring.Bitmap, efSearch int) []types.SearchResult {
+	d := rt.Float64("distance")
+	rt.Assume(rt.And(d >= 0, d <= 1e30))
+	ZZLastDistance = d
+	return []types.SearchResult{{DocID: 1, Score: d}}
+}
